@@ -28,7 +28,7 @@ PROPS = json.load(open(os.path.join(VERIF, 'props.json')))
 ALL_FEATURE_SETS = [tuple(f for f, b in zip(mirror.ALL_FEATURES, bits) if b)
                     for bits in [(1, 1, 1), (0, 1, 1), (1, 0, 1), (1, 1, 0), (0, 0, 1), (0, 1, 0), (1, 0, 0), (0, 0, 0)]]
 
-SAFETY_MSGS = ('possible arithmetic underflow/overflow', 'possible bit shift underflow/overflow',
+SAFETY_MSGS = ('precondition not met', 'possible arithmetic underflow/overflow', 'possible bit shift underflow/overflow',
                'possible division by zero', 'unreachable', 'index out of bounds', 'decreases not satisfied',
                'could not prove termination', 'failed to prove termination')
 UTF8_CTORS = ('from_utf8_unchecked', 'get_unchecked', 'from_u32_unchecked', 'from_utf8_unchecked_mut')
@@ -147,11 +147,31 @@ TAG_RE = re.compile(r'\[(C\d\d(?:\s*,\s*C\d\d)*)\]')
 
 
 def line_tags(text):
+    """tags per line: `// [C02,C07]` comments.  A tag comment on a line that opens a block (`proof { // [C07]`,
+    `if c { // [C02]`) applies to every line of that block."""
     tags = {}
-    for no, l in enumerate(text.split('\n'), 1):
+    lines = text.split('\n')
+    for no, l in enumerate(lines, 1):
         m = TAG_RE.search(l)
-        if m and '//' in l:
-            tags[no] = [x.strip() for x in m.group(1).split(',')]
+        if m and '//' in l and l.index('//') < m.start():
+            t = [x.strip() for x in m.group(1).split(',')]
+            tags.setdefault(no, [])
+            tags[no] += [x for x in t if x not in tags[no]]
+            code = l[:l.index('//')].rstrip()
+            if code.endswith('{'):
+                depth = 0
+                k = no
+                while k <= len(lines):
+                    c = lines[k - 1]
+                    c = c[:c.index('//')] if '//' in c else c
+                    depth += c.count('{') - c.count('}')
+                    tags.setdefault(k, [])
+                    tags[k] += [x for x in t if x not in tags[k]]
+                    if depth <= 0 and k > no:
+                        break
+                    if depth <= 0 and k == no:
+                        break
+                    k += 1
     return tags
 
 
